@@ -9,7 +9,7 @@ templates and the old reporter draw their figures from the same report item / ac
 shortened name; `--desc` is a permutation ordered the other way; flag position of `--no-color`.
 Colour-stripping of a *whole* register day (`strip_colour_register`): removing the escape codes from the
 coloured output of the default and the left-aligned template, with or without `--shorten`, totals,
-totals-only, gives the plain output byte for byte — under the hypothesis that the date text and the names
+totals-only, and of the old reporter and `summary` (`strip_colour_old_and_summary`), gives the plain output byte for byte — under the hypothesis that the date text and the names
 shown hold no ESC byte themselves (with an ESC inside a name the statement is false by construction).
 -/
 namespace Hrano.C15
@@ -42,6 +42,13 @@ theorem strip_colour_register (cfg : RCfg) (d : LogDay) (db : Book) (hdate : noE
     stripAnsi (renderDefault { cfg with color := true } d db) = renderDefault { cfg with color := false } d db
     ∧ stripAnsi (renderLeft { cfg with color := true } d db) = renderLeft { cfg with color := false } d db :=
   ⟨strip_renderDefault cfg d db hdate hn, strip_renderLeft cfg d db hdate hn⟩
+
+/-- … and the same for a whole day of the old register reporter (`--use-old-reg-reporter`) and of `summary` -/
+theorem strip_colour_old_and_summary (cfg : RCfg) (d : LogDay) (db : Book) (hdate : noEsc (Date.format cfg.dateLayout d.date))
+    (hn : NamesPlain db d) :
+    stripAnsi (renderOld { cfg with color := true } d db) = renderOld { cfg with color := false } d db
+    ∧ stripAnsi (renderSummary { cfg with color := true } d db) = renderSummary { cfg with color := false } d db :=
+  ⟨strip_renderOld cfg d db hdate hn, strip_renderSummary cfg d db hdate hn⟩
 
 /-- text without ESC bytes is untouched by the stripping -/
 theorem strip_plain (a rest : Bytes) (h : noEsc a) : stripAnsi (a ++ rest) = a ++ stripAnsi rest :=
